@@ -154,10 +154,11 @@ type Logger interface{ LogReq(string) }
 
 // Client talks to one gateway.
 type Client struct {
-	Addr   string // host:port
-	AK, SK string
-	Region string
-	Log    Logger
+	AdminAddr string // where Admin() sends its requests when the gateway has a separate admin listener ("" = Addr)
+	Addr      string // host:port
+	AK, SK    string
+	Region    string
+	Log       Logger
 	// DefaultWatchdog replaces the 120 s per-request watchdog when a request does not set its own.
 	DefaultWatchdog time.Duration
 
@@ -176,7 +177,7 @@ func New(addr, ak, sk string) *Client {
 
 // With returns a client for the same gateway with other credentials.
 func (c *Client) With(ak, sk string) *Client {
-	return &Client{Addr: c.Addr, AK: ak, SK: sk, Region: c.Region, Log: c.Log, DefaultWatchdog: c.DefaultWatchdog}
+	return &Client{Addr: c.Addr, AdminAddr: c.AdminAddr, AK: ak, SK: sk, Region: c.Region, Log: c.Log, DefaultWatchdog: c.DefaultWatchdog}
 }
 
 // At returns a client with the same credentials for another gateway address.
